@@ -21,6 +21,8 @@
 (*   addressed listener was started => conf; R.store = the class the        *)
 (*   driver put the store into before the case (R.pre: what an inspection   *)
 (*   found) => store; R.il, R.anc => fields of the request datagram.        *)
+(*   The sender's source port class is part of R.src (and R.sc.sp): the     *)
+(*   port the driver's socket was bound to.                                 *)
 (*   monitor (ListenerTrace_mon.cfg): the PROPERTY SECTION of Listener     *)
 (*   strict  (ListenerTrace_strict.cfg): the record is what Listener's     *)
 (*           pipeline and reply construction compute                       *)
@@ -37,6 +39,7 @@ RestoreAtTop == TRUE
 Confs     == {"sw", "hw"}
 Stores    == {}
 Ancs      == {}
+SrcPorts  == {}
 VARIABLES draft, net, hist, nsent, ninj, blen, conf, store, l
 INSTANCE Listener
 
